@@ -107,6 +107,18 @@ ParseRequest(pdu) ==
          IF n >= 5 /\ ValidRange(a, b) /\ b <= MaxWriteRegs /\ n = 5 + 2 * b
          THEN Ok(a, b, RegsOf(SubSeq(pdu, 7, Len(pdu)), b)) ELSE Bad
 
+\* A write-multiple request that is valid by its real length whose byte-count FIELD says something else (possible with
+\* MBAP framing only; on a serial line the field delimits the frame).  C01 / C02 name "wrong length for its quantity" and
+\* do not mention the field: the implementation executes such a request (the leniency named above), a server that
+\* validates the field answers exception 03.  The session-level trace specification accepts either, consistently per
+\* recorded run; ParseRequest itself describes what the code does.
+WriteByteCountFieldDisagrees(pdu) ==
+  /\ Len(pdu) >= 6 /\ pdu[1] \in {FcWriteCoils, FcWriteRegs}
+  /\ ParseRequest(pdu).tag = "ok"
+  /\ LET c == U16(pdu[4], pdu[5])
+         nb == IF pdu[1] = FcWriteCoils THEN NumBytesForBits(c) ELSE 2 * c
+     IN pdu[6] # nb % 256
+
 ExceptionPdu(fc, code) == <<FcWithError(fc), code>>
 
 (* reply PDU for a successful request; vals = the values the handlers supplied (reads) *)
@@ -148,6 +160,15 @@ EncodeRequest(r) ==
 (* Named leniency ByteCountFieldIgnored for read replies: only the real    *)
 (* length must be the one implied by the request.                          *)
 (***************************************************************************)
+\* A read reply of exactly the length the request implies whose byte-count FIELD says something else.  C04 demands
+\* the length ("completes successfully only if ... has exactly the length implied by the request") and says nothing
+\* about the field: the implementation takes such a reply (the leniency named above), a stricter client may refuse it.
+\* Both are accepted by the trace specifications; DecodeResponse itself describes what the code does.
+ByteCountFieldDisagrees(r, pdu) ==
+  /\ Len(pdu) >= 2 /\ pdu[1] = r.fc /\ r.fc \in ReadFcs
+  /\ LET nb == IF r.fc \in BitReadFcs THEN NumBytesForBits(r.count) ELSE 2 * r.count
+     IN Len(pdu) = 2 + nb /\ pdu[2] # nb % 256
+
 DecodeResponse(r, pdu) ==
   LET Err == [class |-> "err", code |-> 0, values |-> <<>>]
   IN
